@@ -141,9 +141,9 @@ package vm
 //@   checks panic index [C05]
 //@   requires[code_wf;C05] vm != nil && vm.main != nil && codeWF(vm.CR.CS, vm.CR.DS)
 //@   modifies *
-//@   loop 0 invariant[code] cs == vm.CR.CS && ds == vm.CR.DS && codeWF(cs, ds) && vm.stdin == old(vm.stdin)
-//@   loop 1 invariant[rcont] cs == vm.CR.CS && ds == vm.CR.DS && codeWF(cs, ds) && vm.stdin == old(vm.stdin) && (forall j :: lo <= j && j < i ==> !imhas(ctxp.children, hashContext(m, j)))
-//@   loop 2 invariant[dcont] cs == vm.CR.CS && ds == vm.CR.DS && codeWF(cs, ds) && vm.stdin == old(vm.stdin) && (forall j :: lo__2 <= j && j < i__3 ==> !imhas(ctxp.children, hashContext(m, j)))
+//@   loop 0 invariant[code] cs == vm.CR.CS && ds == vm.CR.DS && codeWF(cs, ds) && vm.stdin == old(vm.stdin) && err == nil
+//@   loop 1 invariant[rcont] cs == vm.CR.CS && ds == vm.CR.DS && codeWF(cs, ds) && vm.stdin == old(vm.stdin) && err == nil && (forall j :: lo <= j && j < i ==> !imhas(ctxp.children, hashContext(m, j)))
+//@   loop 2 invariant[dcont] cs == vm.CR.CS && ds == vm.CR.DS && codeWF(cs, ds) && vm.stdin == old(vm.stdin) && err == nil && (forall j :: lo__2 <= j && j < i__3 ==> !imhas(ctxp.children, hashContext(m, j)))
 //
 // C10: the array built by an array-literal step is new storage, whatever its operands were.
 //@   atcall value.NewArray(slc) with (callee_a []value.Type) requires[array_is_fresh;C10] fresh(callee_a)
@@ -171,3 +171,7 @@ package vm
 //
 // C19: the report is about the instruction that failed.
 //@   atcall vm.dumpStack with (callee_ip int, callee_err error) requires[report_points_at_failure;C19] callee_ip == ip && callee_err != nil
+// ... and names the error the failing operation actually returned (the machine's own error variable
+// is nil whenever an instruction starts, so a pending operator error is the one in scope at the call).
+//@   atcall vm.dumpStack(ctxp, ip, value. with (callee_err error) requires[reported_error_is_the_one_raised;C19,C01] err == nil   // the machine raises an error class of its own only when no operator error is pending
+//@   atcall vm.dumpStack(ctxp, ip, Err with (callee_err error) requires[reported_error_is_the_one_raised;C19,C01] err == nil
